@@ -392,6 +392,15 @@ theorem C17_nothing_after_end (s : St) (before after : List Op) (h : Out.fileEnd
     ∀ i, Out.chunk i ∉ run (final s before) after :=
   closed_run _ after (closed_after_end s before h)
 
+/-- why the order inside `applyResumeInfo` matters (tied by `send_apply_order` below): the plan put in force before verification is
+    pending lets the workers run to the end record, after which `verifyBegin` declines - the chunk offered for verification is never
+    decided. With `verifyBegin` first the end record waits for the verdict. -/
+theorem C17_plan_before_verify_skips_verification :
+    run (init 2) [.applyPlan { bitmap := [true, true], forceFrom := 2 }, .take, .tryEnd, .verifyBegin] =
+      [.nothing, .none, .fileEnd, .declined] ∧
+    run (init 2) [.verifyBegin, .applyPlan { bitmap := [true, true], forceFrom := 2 }, .take, .tryEnd, .verdict true 1, .take, .finish] =
+      [.nothing, .nothing, .none, .nothing, .nothing, .chunk 1, .fileEnd] := by decide
+
 /-- premises satisfiable: one chunk, sent and ended; the late report (`verifyBegin`) is declined, a verdict has nobody to wake -/
 example : run (init 1) [.take, .finish, .verifyBegin, .verdict true 0, .take] =
     [.chunk 0, .fileEnd, .declined, .declined, .none] := by decide
@@ -450,6 +459,9 @@ theorem C17_source_shapes :
     -- verification goroutine (`verdict`) is started only when it accepted
     sendfile_begin_verify = ["s.mu.Lock()", "defer s.mu.Unlock()", "if s.endSent { return false }", "s.verifyPending = true", "return true"] ∧
     send_begin_verify_call = ["totalChunks > 0 && len(info.Bitmap) > 0 ; verifyNeeded && state.beginVerify()"] ∧
-    send_verify_pending_sets = ["false", "false"] := by decide
+    send_verify_pending_sets = ["false", "false"] ∧
+    -- inside `applyResumeInfo`: verification is made pending (`verifyBegin`) BEFORE the plan is put in force (`applyPlan`) - with the
+    -- plan first, the workers could skip to the end record while nothing is pending yet, and `beginVerify` would then decline
+    send_apply_order = ["state.beginVerify()", "go func(vChunk", "opts.ResumeStatsFn(", "state.plan = plan"] := by decide
 
 end TV.C17
